@@ -68,3 +68,40 @@ Proof.
   exists c50, [EImport 20 []; EImport 30 [(3%nat, Switch 21 (fork 21 30))]].
   split; [vm_compute; reflexivity|]. split; vm_compute; reflexivity.
 Qed.
+
+(* ---- why the whole-history theorems (Properties.v, C13_converge and the others) assume [wf_chain] ----
+   Two witnesses outside the four classes above (every import succeeds, w_deep = false, w_stale = false,
+   no mutation during an import) on chains that violate [wf_chain]. *)
+
+(* (e) C13-origin-rollback-slot0 (known finding, reproduced on the real importer + SQLite on every run
+   by the harness flavour `origin-slot0`): a stored block at slot 0.  A roll-back to the origin is a
+   roll-back to slot 0, the anchor query (max block_number where slot_number <= 0) finds that block and
+   keeps it although the whole chain was replaced; the replacing block with the same number is ignored
+   (insert or ignore) — silently.  C13_converge excludes the class by the hypothesis `0 < slot` of
+   [wf_chain] (in [hist_ok]): with every slot positive a roll-back to the origin either meets an empty
+   table or is the deep-roll-back class (w_deep = true). *)
+Theorem C13_hyp_needed_slot_positive :
+  exists (c : list block) (h : list event),
+    w_oks (run_history 4 c h) = [true; true] /\ w_deep (run_history 4 c h) = false /\ w_stale (run_history 4 c h) = false /\
+    map bh (blocks (final_store 4 c h)) = [1; 4; 5] /\
+    map bh (blocks (scratch 4 (final_chain 4 c h) 2)) = [3; 4; 5].
+Proof.
+  exists [B 0 0 1 []; B 1 5 2 [10]],
+         [EImport 1 []; EMut (Switch 0 [B 0 3 3 []; B 1 6 4 [11]; B 2 8 5 []]); ERestart; EImport 2 []].
+  vm_compute. repeat split; reflexivity.
+Qed.
+
+(* (f) documented hypothesis, not a finding (consecutive block numbers are a chain invariant of Cardano;
+   the harness generator never produces a gap; replayed once on the real importer with the probe mode
+   `C13_PROBE=1 target/debug/c13 --seed 1 --tier quick --out /dev/null`, same outcome as the model):
+   a gap in the block numbers — the streamer consumes the block above the target and forgets it, the
+   server then reaches its tip (Await: the next find_intersect is not sent) and never re-sends it *)
+Theorem C13_hyp_needed_consecutive :
+  exists (c : list block) (h : list event),
+    w_oks (run_history 4 c h) = [true; true] /\ w_deep (run_history 4 c h) = false /\ w_stale (run_history 4 c h) = false /\
+    map bh (blocks (final_store 4 c h)) = [1] /\
+    map bh (blocks (scratch 4 (final_chain 4 c h) 7)) = [1; 2].
+Proof.
+  exists [B 5 10 1 []; B 7 20 2 [10]], [EImport 6 []; EImport 7 []].
+  vm_compute. repeat split; reflexivity.
+Qed.
